@@ -1,0 +1,11 @@
+//go:build verif
+// +build verif
+
+package models
+
+// VerifVerifyAllowIps is Namespace.verifyAllowIps on a namespace holding only
+// the given allowed_ip list (verification hook for property C35).
+func VerifVerifyAllowIps(allowed []string) error {
+	n := &Namespace{AllowedIP: allowed}
+	return n.verifyAllowIps()
+}
